@@ -535,7 +535,10 @@ class Kernel(Module):
             # If it does not return a LazyEvaluatedKernelTensor, we can call diag on the output
             if not isinstance(res, LazyEvaluatedKernelTensor):
                 if res.dim() == x1_.dim() and res.shape[-2:] == torch.Size((x1_.size(-2), x2_.size(-2))):
-                    res = res.diagonal(dim1=-1, dim2=-2)
+                    # (a b x n table of diagonals of a kernel with batch shape b on n = b un-batched points is not a matrix)
+                    diag_shape = torch.broadcast_shapes(self.batch_shape, x1_.shape[:-2], x2_.shape[:-2]) + x1_.shape[-2:-1]
+                    if last_dim_is_batch or res.shape != diag_shape:
+                        res = res.diagonal(dim1=-1, dim2=-2)
             return res
 
         else:
